@@ -263,6 +263,40 @@ def sc_refit_tsne(cfg):
     return scenario
 
 
+def sc_refit_dtlr(cfg):
+    """DecisionTreeLogisticRegression: nothing a node classifier learnt in one fit can reach the next fit -- the
+    estimator parameter is never trained (a stateful / warm-starting one would carry its state over), every node
+    of every tree trains its own clone exactly once, and the second tree shares no classifier with the first"""
+    from . import c10
+
+    m = loader.load("mlmodel.decision_tree_logreg")
+
+    def scenario(C):
+        N = c10.NodeClf
+        N.C, N.table, N.fits, N.count = C, {}, [], 0
+        n = 3
+        X = numpy.arange(n, dtype=float).reshape(-1, 1) + c10.OFFSET
+        ya = [C.choice(f"ya{i}", 2) for i in range(n)]
+        yb = [C.choice(f"yb{i}", 2) for i in range(n)]
+        C.assume(len(set(ya)) == 2 and len(set(yb)) == 2)
+        base = N()
+        est = m.DecisionTreeLogisticRegression(estimator=base, max_depth=2, min_samples_leaf=1, fit_improve_algo=cfg["algo"])
+        est.fit(X, numpy.array(ya))
+        first = c10.nodes_of(est.tree_)
+        est.fit(X, numpy.array(yb))
+        second = c10.nodes_of(est.tree_)
+        C.true(not hasattr(base, "id_") and est.estimator is base, "DecisionTreeLogisticRegression/the-estimator-parameter-is-never-trained(clones-are)")
+        objs = [id(nd.estimator) for nd in first + second]
+        C.true(len(set(objs)) == len(objs), "DecisionTreeLogisticRegression/refit-shares-no-node-classifier-with-the-previous-tree")
+        per = {}
+        for f in N.fits:
+            per[id(f[0])] = per.get(id(f[0]), 0) + 1
+        C.true(all(v == 1 for v in per.values()), "DecisionTreeLogisticRegression/every-node-classifier-is-trained-exactly-once", detail=sorted(per.values()))
+        C.true(all(nd.estimator is not base for nd in second), "DecisionTreeLogisticRegression/refit==fresh-fit(root-starts-from-an-untrained-clone)")
+
+    return scenario
+
+
 # ------------------------------------------------------------------ (b) seed discipline
 
 
@@ -444,7 +478,7 @@ def sc_seed_piecewise(cfg):
     return c08.scenario_for(dict(classifier=True, binner="tree", reverse=False, weighted=False, train=3, query=1, buckets=2, seed=cfg["seed"], n_jobs=None))
 
 
-SCEN = dict(refit_tsne=sc_refit_tsne, seed_piecewise=sc_seed_piecewise, refit_piecewise=sc_refit_piecewise, refit_perm=sc_refit_perm, refit_categories=sc_refit_categories, refit_cak=sc_refit_cak, refit_misc=sc_refit_misc, seed_ckm=sc_seed_ckm, seed_kml1=sc_seed_kml1)
+SCEN = dict(refit_dtlr=sc_refit_dtlr, refit_tsne=sc_refit_tsne, seed_piecewise=sc_seed_piecewise, refit_piecewise=sc_refit_piecewise, refit_perm=sc_refit_perm, refit_categories=sc_refit_categories, refit_cak=sc_refit_cak, refit_misc=sc_refit_misc, seed_ckm=sc_seed_ckm, seed_kml1=sc_seed_kml1)
 
 
 def run_config(cfg):
@@ -473,6 +507,8 @@ def configs(tier):
     out.append(dict(kind="refit_cak"))
     out.append(dict(kind="refit_misc"))
     out.append(dict(kind="refit_tsne"))
+    for algo in ("auto", "none"):
+        out.append(dict(kind="refit_dtlr", algo=algo))
     for strategy in ("distance", "gain"):
         for kmeans0 in (True, False):
             out.append(dict(kind="seed_ckm", strategy=strategy, kmeans0=kmeans0, seed=0 if kmeans0 else 7))
@@ -492,6 +528,7 @@ def run(ctx, rep):
     rep.add_functions("mlmodel._kmeans_constraint_", ["constraint_kmeans", "constraint_predictions", "_constraint_association_distance", "_constraint_association_gain", "_randomize_index", "_switch_clusters"])
     rep.add_functions("mlmodel.kmeans_l1", ["KMeansL1L2._fit_l1"])
     rep.add_functions("mlmodel.predictable_tsne", ["PredictableTSNE.fit"])
+    rep.add_functions("mlmodel.decision_tree_logreg", ["DecisionTreeLogisticRegression.fit", "DecisionTreeLogisticRegression._fit_parallel", "_DecisionTreeLogisticRegressionNode.fit"])
     cfgs = configs(ctx.tier)
     rep.bounds = dict(refit="pairs (A, B) of 2-3 rows with different sizes / bucket layouts / label sets / categorical columns", seeds="integer random_state 0/3 and None; every draw symbolic and realised (n=2 points, k=2 clusters for ConstraintKMeans)")
     rep.assumptions = [
